@@ -623,3 +623,5 @@ def rule_layout(ctx):
 
 
 RULES.append(("C15.LAYOUT", "quick", rule_layout))
+# parse(write(x)) == x for tickets needs the format version to cover the fields set
+RULES.append(("C15.TICKET-FIELDS", "quick", borrowed("c13", "rule_ticket_fields", "C13.TICKET-FIELDS", "C15.TICKET-FIELDS")))
